@@ -286,7 +286,8 @@ class Functor(pg_object.Object, utils.Functor):
               f'Cannot delete attribute {name!r}: {self.__class__.__name__} '
               'does not allow writing through accessors.'))
     del self._sym_attributes[name]
-    if self.__signature__.get_value_spec(name).has_default:
+    value_spec = self.__signature__.get_value_spec(name)
+    if value_spec is not None and value_spec.has_default:
       self._default_args.add(name)
     self._specified_args.discard(name)
     self._non_default_args.discard(name)
@@ -393,11 +394,18 @@ class Functor(pg_object.Object, utils.Functor):
   def _apply_call_time_overrides_to_members(self, **kwargs):
     """Overrides member values within the scope."""
     assert self._tls is not None
+    # NOTE: a call may be re-entered (e.g. a recursive `_call`): the overrides
+    # of the outer call are put back when the inner call returns.
+    outer_overrides = getattr(
+        self._tls, Functor._TLS_OVERRIDE_MEMBERS_KEY, None)
     setattr(self._tls, Functor._TLS_OVERRIDE_MEMBERS_KEY, kwargs)
     try:
       yield
     finally:
-      delattr(self._tls, Functor._TLS_OVERRIDE_MEMBERS_KEY)
+      if outer_overrides is None:
+        delattr(self._tls, Functor._TLS_OVERRIDE_MEMBERS_KEY)
+      else:
+        setattr(self._tls, Functor._TLS_OVERRIDE_MEMBERS_KEY, outer_overrides)
 
   def _parse_call_time_overrides(
       self, *args, **kwargs
@@ -502,6 +510,25 @@ class Functor(pg_object.Object, utils.Functor):
       raise TypeError(
           f'{signature.id}() missing {len(missing_required_arg_names)} '
           f'required positional {arg_phrase}: {args_str}.'
+      )
+
+    # Keyword-only arguments: use the default, or report the missing ones as
+    # Python does.
+    missing_required_kwonly_names = []
+    for arg in signature.kwonlyargs:
+      if arg.name not in keyword_args:
+        if arg.value_spec.default != pg_typing.MISSING_VALUE:
+          keyword_args[arg.name] = arg.value_spec.default
+        else:
+          missing_required_kwonly_names.append(arg.name)
+    if missing_required_kwonly_names:
+      arg_phrase = utils.auto_plural(
+          len(missing_required_kwonly_names), 'argument'
+      )
+      args_str = utils.comma_delimited_str(missing_required_kwonly_names)
+      raise TypeError(
+          f'{signature.id}() missing {len(missing_required_kwonly_names)} '
+          f'required keyword-only {arg_phrase}: {args_str}.'
       )
 
     if signature.has_varargs:
